@@ -463,18 +463,63 @@ pub fn run(ctx: &Ctx) -> i32 {
             }
         }
     }
+    // (e) detection does not depend on what the same Translator saw before: inputs that several formats accept
+    //     (and xt's other ambiguity shapes), on a translator warmed up with a detected input of each format
+    {
+        let ambiguous: Vec<&[u8]> = vec![b"[1]", b"[a]", b"[a]\n", b"[\"a\"]", b"[[1]]", b"[a.b]\n", b"{}", b"[]", b"1 = 2\n", b"\"a\" = 1\n", b"a: b\n", b"k = \"a: b\"\n", b"{\"a\": 1}", b"{\"n\": -0}", b"{\"n\": -0.0}\n", b"[a, b]\n", b"a = 1\n", b"# c\na = 1\n", b"1\n", b"\"s\"\n", b"{\"s\": \"x\xc2\x85y\"}", b"{\"s\": \"x \xe2\x80\xa8 y\"}", b"[1e400]", b"[0x10]", b"[~]", b"[null]", b"\x91\x01", b"\xdc\x9c: 1\n", b"- 1\n", b""];
+        let mut cases = vec![];
+        for (wi, _) in crate::run::WARM_UPS.iter().enumerate() {
+            for (ai, _) in ambiguous.iter().enumerate() {
+                cases.push((wi, ai));
+            }
+        }
+        let e_acc = crate::par::run(cases.len(), 8, |i, acc| {
+            let (wi, ai) = cases[i];
+            let (wname, warm) = crate::run::WARM_UPS[wi];
+            let input = ambiguous[ai];
+            for to in [Fmt::Json, Fmt::Yaml, Fmt::Msgpack] {
+                for mode in [Mode::Slice, Mode::Reader(Sched::All), Mode::Reader(Sched::Fixed(3))] {
+                    acc.evals += 1;
+                    acc.count("detections_on_a_warmed_up_translator");
+                    let fresh = run_mode(input, &mode, None, to);
+                    for warms in [vec![warm], vec![warm, warm], vec![crate::run::WARM_UPS[(wi + 1) % 6].1, warm]] {
+                        let got = crate::run::run_after(&warms, input, &mode, None, to);
+                        if got.verdict.class() != fresh.verdict.class() || got.out != fresh.out {
+                            acc.violation(Violation { sig: format!("detection depends on what the translator saw before (after {wname})"), case: json!({"part": "warm", "warm_up": wname, "input_hex": hex(input), "input_preview": preview(input, 60), "mode": mode.describe(), "to": to.name()}), observed: format!("after a detected {wname} input: {} [{}]; on a fresh translator: {} [{}]", got.verdict.show(), preview(&got.out, 80), fresh.verdict.show(), preview(&fresh.out, 80)), expected: "the same verdict and output as on a fresh translator".into() });
+                            return;
+                        }
+                    }
+                }
+            }
+        });
+        acc.merge(e_acc);
+    }
     handle_programs(ctx, &mut acc);
-    let rule = format!("(a,b) {} mixed corpus inputs + {} inputs aimed at the detection trials (MessagePack collection markers followed by every kind of truncation, text starting with U+0700-U+07FF and other two-byte characters, inputs several formats accept, truncated seeds, JSON / YAML / TOML behind 1000..70001 bytes of white space, TOML documents of 1 000 000, 2 050 000 and just under 2 MiB bytes), each as a slice and under 4 read schedules, rotating target; (d) EVERY program of up to {} tokens over {{new borrow, read(n), prefix(n) : n in 0..=len+1}} x every data size 0..=6 x EVERY chunking of the source x both ways of taking ownership, plus the same programs on slice handles; distinct non-trivial = distinct inputs plus distinct programs of >= 2 tokens on >= 2 bytes", n_mixed, n_emph, if ctx.thorough() { 5 } else { 3 });
+    let rule = format!("(a,b) {} mixed corpus inputs + {} inputs aimed at the detection trials (MessagePack collection markers followed by every kind of truncation, text starting with U+0700-U+07FF and other two-byte characters, inputs several formats accept, truncated seeds, JSON / YAML / TOML behind 1000..70001 bytes of white space, TOML documents of 1 000 000, 2 050 000 and just under 2 MiB bytes), each as a slice and under 4 read schedules, rotating target; (e) 30 inputs that several formats accept x a translator warmed up with a detected input of each format (and pairs of them) x 3 targets x slice/reader: verdict and output as on a fresh translator; (d) EVERY program of up to {} tokens over {{new borrow, read(n), prefix(n) : n in 0..=len+1}} x every data size 0..=6 x EVERY chunking of the source x both ways of taking ownership, plus the same programs on slice handles; distinct non-trivial = distinct inputs plus distinct programs of >= 2 tokens on >= 2 bytes", n_mixed, n_emph, if ctx.thorough() { 5 } else { 3 });
     let mut extra = serde_json::Map::new();
     extra.insert("handle_programs_exhaustive_up_to_tokens".into(), json!(if ctx.thorough() { 5 } else { 3 }));
     ev::finish(
-        Finish { ctx, level: "exploration", rule, assumptions: vec!["the handle model is non-deterministic about how many bytes a read returns (1..=n) and how long a prefix is (>= min(n, len))".into(), "the harness reader injects no I/O errors in this check (C12 does)".into()], extra, exhaustive: false, min_distinct: 5000, must_reach: vec![("handle_programs_run".into(), 100000), ("explicit_vs_detected_compared".into(), 10000), ("detected_none".into(), 100), ("INPUT_READER_CHAINED_PREFIX".into(), 1000), ("INPUT_SLICE_FROM_READER_EOF".into(), 1000)] },
+        Finish { ctx, level: "exploration", rule, assumptions: vec!["the handle model is non-deterministic about how many bytes a read returns (1..=n) and how long a prefix is (>= min(n, len))".into(), "the harness reader injects no I/O errors in this check (C12 does)".into()], extra, exhaustive: false, min_distinct: 5000, must_reach: vec![("detections_on_a_warmed_up_translator".into(), 1000), ("handle_programs_run".into(), 100000), ("explicit_vs_detected_compared".into(), 10000), ("detected_none".into(), 100), ("INPUT_READER_CHAINED_PREFIX".into(), 1000), ("INPUT_SLICE_FROM_READER_EOF".into(), 1000)] },
         acc,
     )
 }
 
 pub fn replay(v: &Value) -> i32 {
     let c = &v["case"];
+    if c["part"].as_str() == Some("warm") {
+        let (Some(input), Some(mode), Some(to)) = (c["input_hex"].as_str().and_then(unhex), c["mode"].as_str().and_then(Mode::parse), c["to"].as_str().and_then(Fmt::parse)) else { return 2 };
+        let Some((_, warm)) = crate::run::WARM_UPS.iter().find(|(n, _)| Some(*n) == c["warm_up"].as_str()) else { return 2 };
+        let fresh = run_mode(&input, &mode, None, to);
+        let got = crate::run::run_after(&[warm], &input, &mode, None, to);
+        println!("fresh: {} [{}]\nafter {}: {} [{}]", fresh.verdict.show(), preview(&fresh.out, 200), c["warm_up"], got.verdict.show(), preview(&got.out, 200));
+        return if got.verdict.class() != fresh.verdict.class() || got.out != fresh.out {
+            println!("VIOLATION property=C09 replay=<this file> (reproduced)");
+            1
+        } else {
+            println!("not reproduced");
+            0
+        };
+    }
     if c["part"].as_str() == Some("handle") {
         let (Some(data), Some(prog)) = (c["data_hex"].as_str().and_then(unhex), c["program"].as_str().and_then(parse_prog)) else {
             println!("bad replay case");
